@@ -112,12 +112,52 @@ def run_all(tier, wd):
     return findings, stats
 
 
+def _tree_key(tier):
+    """identifies the code under test and the machinery: the sibling property reuses a run only for exactly the same trees"""
+    import hashlib
+    h = hashlib.sha256(tier.encode())
+    for d in (REPO, VERIF):
+        for cmd in (["git", "-C", d, "rev-parse", "HEAD"], ["git", "-C", d, "diff", "HEAD"], ["git", "-C", d, "status", "--porcelain"]):
+            h.update(sh(cmd).stdout.encode())
+    h.update(str(seed()).encode())
+    return h.hexdigest()
+
+
+def cached_run_all(tier, wd):
+    """C05/C06 (C10/C11) are two judgements of one run: the second property reuses the findings of the first when /repo and
+    /verif are byte-for-byte the same trees (key: HEAD + diff + status of both)."""
+    import pickle
+    key = _tree_key(tier)
+    cp = os.path.join(WORK, f"%s_{tier}.cache" % __name__.split(".")[-1])
+    if os.path.exists(cp):
+        try:
+            k, data = pickle.load(open(cp, "rb"))
+            if k == key:
+                os.remove(cp)            # one reuse only: a third run is a fresh one
+                log(f"[cache] reusing the run of the sibling property ({os.path.basename(cp)})")
+                return data
+        except Exception:
+            pass
+    findings, stats = run_all(tier, wd)
+    for f in findings:
+        f["unit"]["u"].pop("defs", None)
+    stats2 = dict(stats)
+    g = stats2.pop("tlc")
+    import types
+    stats2["tlc"] = types.SimpleNamespace(distinct=g.distinct, generated=g.generated)
+    try:
+        pickle.dump((key, (findings, stats2)), open(cp, "wb"))
+    except Exception as e:
+        log(f"[cache] not written: {e}")
+    return findings, stats
+
+
 def run_property(pid, tier):
     from .rexec_run import sig_shape
     t0 = time.time()
     wd = workdir(pid)
     out = Outcome(pid)
-    findings, stats = run_all(tier, wd)
+    findings, stats = cached_run_all(tier, wd)
     for f in [f for f in findings if f["kind"] in PROPS[pid]]:
         u = f["unit"]
         ctx = {"signature": sig_shape(u["u"]), "config": u["cfg"], "wit": u["wit"], "case": f.get("case"), "detail": f["detail"]}
